@@ -49,18 +49,37 @@ fn expected_offset(units: &[(u64, u32, bool)], anchor: Option<(u64, u32)>, after
         }
     }
 }
-
+/// an element that undo / redo re-created lives on in its newest copy: the anchor follows the `redone` pointers
+fn follow_redone(vs: &VStore, root: &str, anchor: Option<(u64, u32)>) -> Option<(u64, u32)> {
+    let mut cur = anchor?;
+    for _ in 0..64 {
+        let mut next = None;
+        for b in &vs.branches { if let VParent::Root(n) = &b.id { if n == root { for it in &b.seq {
+            if it.id.client.get() == cur.0 && it.id.clock <= cur.1 && cur.1 < it.id.clock + it.len { if let Some(r) = it.redone { next = Some((r.client.get(), r.clock + (cur.1 - it.id.clock))); } }
+        } } } }
+        match next { Some(n) => cur = n, None => break }
+    }
+    Some(cur)
+}
 fn run_case(seed: u64, index: u64, rep: &mut Report, want: &[&str]) {
     let mut r = Rng::for_case(seed, 114, index);
     let nrep = r.range(2, 3) as usize;
-    let reps: Vec<Replica> = (0..nrep).map(|i| Replica::new([1u64, 2, 3][i], DocCfg::default())).collect();
+    // every other case is an "undo / formatting" case: rich text, an undo manager on replica 0 (so that anchors get deleted and
+    // re-created), GC on or off, and no quotations (their expected content is defined on histories without re-created elements)
+    let undo_case = index % 2 == 1;
+    let gc = undo_case && r.chance(1, 2);
+    let reps: Vec<Replica> = (0..nrep).map(|i| Replica::new([1u64, 2, 3][i], DocCfg { gc, ..DocCfg::default() })).collect();
+    let mut mgr: Option<yrs::undo::UndoManager<()>> = if undo_case {
+        let mut m = yrs::undo::UndoManager::with_options(yrs::undo::Options { capture_timeout_millis: 0, ..yrs::undo::Options::default() });
+        m.expand_scope(&reps[0].doc, &reps[0].doc.get_or_insert_text(ROOT_TEXT)); m.expand_scope(&reps[0].doc, &reps[0].doc.get_or_insert_array(ROOT_ARRAY));
+        Some(m) } else { None };
     let mut msgs: Vec<(usize, Vec<u8>)> = vec![];
     let mut delivered: Vec<BTreeSet<usize>> = vec![BTreeSet::new(); nrep];
     let mut stickies: Vec<Sticky> = vec![];
     let mut quotes: Vec<Quote> = vec![];
     let mut script: Vec<String> = vec![];
     let mut fails: Vec<serde_json::Value> = vec![];
-    let ecfg = EditCfg { text: true, array: true, map: false, xml: false, nested: false, formatting: false, deletes: true };
+    let ecfg = EditCfg { text: true, array: true, map: false, xml: false, nested: false, formatting: undo_case, deletes: true };
     let mut tag = 0u64;
     let steps = r.range(6, 18);
     let fired = Arc::new(AtomicU64::new(0));
@@ -68,8 +87,18 @@ fn run_case(seed: u64, index: u64, rep: &mut Report, want: &[&str]) {
     for step in 0..steps {
         let i = r.below(nrep as u64) as usize;
         let cand: Vec<usize> = (0..msgs.len()).filter(|m| !delivered[i].contains(m)).collect();
-        let choice = r.below(10);
-        if choice < 4 || (cand.is_empty() && choice < 7) {
+        let mut choice = r.below(10);
+        if undo_case && choice == 9 { choice = 7; }   // no quotations in undo cases
+        if undo_case && r.chance(1, 6) {
+            // undo / redo on replica 0: deleted anchors come back as copies, inserted ones go away
+            let m = mgr.as_mut().unwrap();
+            reps[0].drain1();
+            let what = if r.chance(2, 3) { format!("r0 undo -> {}", m.undo_blocking()) } else { format!("r0 redo -> {}", m.redo_blocking()) };
+            script.push(what);
+            if let Some(a) = reps[0].drain1().into_iter().next() { msgs.push((0, a)); delivered[0].insert(msgs.len() - 1); }
+            reps[0].drain2();
+            rep.count("undo_redo_calls");
+        } else if choice < 4 || (cand.is_empty() && choice < 7) {
             let mut sc = vec![];
             let (u1, _) = local_txn(&reps[i], &mut r, &ecfg, false, 2, &mut sc, &mut tag);
             script.push(format!("r{} txn {{{}}}", i, sc.join("; ")));
@@ -156,7 +185,7 @@ fn run_case(seed: u64, index: u64, rep: &mut Report, want: &[&str]) {
                 if let Some(j) = &s.json { match serde_json::from_str::<StickyIndex>(j) { Ok(x) if x == st => {}, _ => fails.push(json!({"property": "C14", "class": "sticky-json-roundtrip", "json": j})) } }
                 if !knows { continue; }
                 rep.add("sticky_resolutions", 1);
-                let want_off = expected_offset(&units, s.anchor, s.after);
+                let want_off = expected_offset(&units, follow_redone(&vs, s.root, s.anchor), s.after);
                 let got = st.get_offset(&txn).map(|o| o.index);
                 if got != want_off {
                     fails.push(json!({"property": "C14", "class": if s.anchor.map_or(false, |(c, k)| units.iter().any(|u| u.0 == c && u.1 == k && !u.2)) { "sticky-with-deleted-anchor-resolves-elsewhere" } else { "sticky-resolves-elsewhere" },
@@ -223,7 +252,7 @@ fn run_case(seed: u64, index: u64, rep: &mut Report, want: &[&str]) {
 }
 
 pub fn run(prop: &str, tier: &str, seed: u64, workers: usize) -> Report {
-    let n = if tier == "thorough" { 4000 } else { 300 };
+    let n = if tier == "thorough" { 40000 } else { 3000 };
     let want: Vec<&str> = vec![prop];
     let mut total = parallel(workers, |w, nw| {
         let mut rep = Report::default();
